@@ -75,7 +75,7 @@ pub fn run_case(t: &mut Toks) -> Vec<i128> {
                         None => out.push(-1),
                     }
                 }
-                out.push(ring.count(now, EVENTS[0]) as i128);
+                out.push(guarded(|| ring.count(now, EVENTS[0])).map(|x| x as i128).unwrap_or(-1));
             }
             x => panic!("bad op {}", x),
         }
